@@ -85,7 +85,7 @@ def token_bounds(policy: str, data: bytes) -> List[int]:
 
 def parse_record(rec: str) -> Optional[Dict[str, Any]]:
     f = rec.split(':')
-    if len(f) != 11 or f[0] not in ('B', 'Y', 'T'):
+    if len(f) != 11 or f[0] not in ('B', 'Y', 'T', 'R'):
         return None
     try:
         r = {'mode': f[0], 'i': int(f[1]), 'off': int(f[2]), 'byte': int(f[3]), 'line': int(f[4]), 'col': int(f[5]),
@@ -157,7 +157,7 @@ def judge(case: Case, r: Dict[str, Any]) -> Tuple[List[str], Optional[str], Dict
               and not any(f.startswith('cursor') for f in fails))
         if ok:
             known = 'F10'
-    elif (policy == 'cr_crlf' and lazy == 0 and r['mode'] == 'T' and b >= 1 and b < k
+    elif (policy == 'cr_crlf' and lazy == 0 and r['mode'] in ('T', 'R') and b >= 1 and b < k
           and data[b - 1] == 13 and data[b] == 10
           and r['at'] == k and r['byte'] == ib + k and r['eol'] == e and r['bol'] == b + 1
           and r['lb'] == b + 1 and r['ll'] == e - (b + 1)
